@@ -81,9 +81,11 @@ fn gen_uid(rng: &mut Rng) -> Option<String> {
 }
 
 fn gen_subs(rng: &mut Rng) -> Vec<(Option<String>, Option<String>)> {
-    let n = match rng.below(6) {
-        0..=2 => 0,
-        3 => 1,
+    let n = match rng.below(12) {
+        0..=5 => 0,
+        6 | 7 => 1,
+        // long lists: the reply grows beyond the one-byte APDU length
+        8 => 14 + rng.below(30) as usize,
         _ => 1 + rng.below(4) as usize,
     };
     (0..n)
@@ -98,7 +100,7 @@ fn gen_subs(rng: &mut Rng) -> Vec<(Option<String>, Option<String>)> {
 
 pub fn run(ctx: &Ctx) -> i32 {
     let mut report = ctx.report("C18", "exploration");
-    report.rule = "read_card against the simulated terminal: systematically every UID length 0..20 x every number of leading zero bytes x zero runs in front of the last 7/8 bytes; randomly UID absent / 0..20 bytes (all zero, zero-prefixed, three zero bytes in front of the last 14 digits, nibble patterns, random), application list (tag 60) absent/empty/1-5 entries with and without application ids, no TLV container at all, 0-5 intermediate statuses before the status information, all 256 abort codes; the terminal's own time-out (abort 6C, or a card at the last moment) arriving read_card_timeout seconds + 0.1/0.9/1.5 s after the request for read_card_timeout in {0,1,15,100,253,254,255}; in a quarter of the cases the link hiccups once during the first presentation (close / garbage / NACK / foreign or unexpected packet / reply followed by a close at a random packet; the re-sent request is answered properly); every card is presented twice in the same session, the second time with the irrelevant fields (track data, card type, ATS, SAK, tag-62 applications) changed. Oracle: reference classification of DESIGN 8/C18 (three-valued where the statement is silent); both presentations must give the same result. Non-trivial = every read; distinct by hash of the reported card data / abort code.".into();
+    report.rule = "read_card against the simulated terminal: systematically every UID length 0..20 x every number of leading zero bytes x zero runs in front of the last 7/8 bytes; randomly UID absent / 0..20 bytes (all zero, zero-prefixed, three zero bytes in front of the last 14 digits, nibble patterns, random), application list (tag 60) absent/empty/1-5 and 14-43 entries with and without application ids, systematically lists of 0..44 entries x 0..15 padding bytes (status informations of every length around the 254/255/256 APDU length switch and beyond), no TLV container at all, 0-5 intermediate statuses before the status information, all 256 abort codes; the terminal's own time-out (abort 6C, or a card at the last moment) arriving read_card_timeout seconds + 0.1/0.9/1.5 s after the request for read_card_timeout in {0,1,15,100,253,254,255}; in a quarter of the cases the link hiccups once during the first presentation (close / garbage / NACK / foreign or unexpected packet / reply followed by a close at a random packet; the re-sent request is answered properly); every card is presented twice in the same session, the second time with the irrelevant fields (track data, card type, ATS, SAK, tag-62 applications) changed. Oracle: reference classification of DESIGN 8/C18 (three-valued where the statement is silent); both presentations must give the same result. Non-trivial = every read; distinct by hash of the reported card data / abort code.".into();
     report.exhaustive = Some(false);
     report.assumptions = vec!["applications listed only under tag 62 are recorded, not judged (one of the repository's own captures is such a card)".into()];
     let schema = Arc::new(refcodec::zvt_schema());
@@ -148,6 +150,23 @@ pub fn run(ctx: &Ctx) -> i32 {
         }
         for _ in 0..n / threads {
             card_case(r, &mut rng, &schema);
+        }
+        // size classes: application lists of 0..44 entries x padding of 0..15 bytes in an irrelevant field, so that the
+        // status information sweeps over every length around the 254/255/256 switch of the APDU length (and beyond)
+        let mut k = 0usize;
+        for entries in 0..=44usize {
+            for pad in 0..=15usize {
+                k += 1;
+                if k % threads != shard {
+                    continue;
+                }
+                for with_aid in [false, true] {
+                    let subs: Vec<(Option<String>, Option<String>)> = (0..entries).map(|i| (Some(format!("{:02x}", i as u8)), if with_aid { Some(format!("a00000000{:01x}1010", i % 16)) } else { None })).collect();
+                    let card = CardData { uid: Some("0000000004a1b2c3d4e5f6".into()), subs, ats: if pad > 0 { Some("5a".repeat(pad)) } else { None }, ..CardData::default() };
+                    fixed_card_case(r, &mut rng, &schema, card);
+                    r.count("size_class_cards", 1);
+                }
+            }
         }
         // the terminal's own read-card time-out: it stays silent for read_card_timeout seconds (plus a little, still
         // inside the client's grace) and then reports 'abort 6C' or, for a card presented at the last moment, the card
@@ -234,7 +253,7 @@ fn random_card(rng: &mut Rng) -> CardData {
         ats: if rng.chance(1, 2) { Some(refcodec::hex(&rng.bytes(5))) } else { None },
         sak: if rng.chance(1, 2) { Some(rng.byte()) } else { None },
         track_2: if rng.chance(1, 4) { Some(refcodec::hex(&rng.bytes(12))) } else { None },
-        status: if rng.chance(1, 4) { Some(StatusFields { amount: Some(rng.below(1_000_000)), trace_number: Some(rng.below(1_000_000)), date: Some(1231), time: Some(rng.below(240000) / 100 * 100), terminal_id: Some(rng.below(100_000_000)), currency: Some(978), card_name: if rng.chance(1, 2) { Some("girocard".into()) } else { None } }) } else { None },
+        status: if rng.chance(1, 4) { Some(StatusFields { amount: Some(rng.below(1_000_000)), trace_number: Some(rng.below(1_000_000)), date: Some(1231), time: Some(rng.below(240000) / 100 * 100), terminal_id: Some(rng.below(100_000_000)), currency: Some(978), card_name: if rng.chance(1, 2) { Some("girocard".into()) } else { None }, result_code: None }) } else { None },
         receipt: if rng.chance(1, 4) { Some(rng.below(10000)) } else { None },
         max_pre_auth: if rng.chance(1, 4) { Some(rng.below(100_000)) } else { None },
     }
